@@ -56,7 +56,7 @@ void hx_cfg_destroy_all(void);                       /* + leak check of the cfg 
 void hx_cfgspec_print(hx_buf *b, const hx_cfgspec *s);
 
 /* ---------------------------------------------------------------- script -------------------- */
-enum { OP_Q = 1, OP_S, OP_QG, OP_SG, OP_CLOSE, OP_QCLOSE, OP_DESTROY, OP_FREED, OP_CLOCK, OP_EPOCH /* the frozen virtual clock stands at n seconds since the epoch */ };
+enum { OP_Q = 1, OP_S, OP_QG, OP_SG, OP_CLOSE, OP_QCLOSE, OP_DESTROY, OP_FREED, OP_CLOCK, OP_EPOCH /* the frozen virtual clock stands at n seconds since the epoch */, OP_USEC /* ... and n microseconds */ };
 typedef struct hx_op { uint8_t k; const uint8_t *d; uint32_t n; } hx_op;
 
 enum { CBA_NONE = 0, CBA_DECLINED, CBA_STOP, CBA_ERROR, CBA_REGHOOKS, CBA_DESTROY_OTHER, CBA_DESTROY_SELF, CBA__N };
